@@ -23,7 +23,7 @@ head = """# Seeded changes written by independent sub-agents
 Each change was written by a fresh sub-agent that saw only the text of one property and its own scratch git worktree of the repository (nothing from /verif).
 Every change was re-verified here with `tools/verify_seeded.py` on scratch copies (removed afterwards): the demonstration exits 0 on the unmodified tree and non-zero with the patch, the pinned 165-test suite still passes with the patch, and the named quick checks were run against the patched copy.
 `detected` = the check exits 1 with a VIOLATION line. Rows list every recorded run in order, so a `missed` followed by `detected` for the same seed is a before/after pair (see the note column). Wall times were measured while agents and background runs shared the 16 cores (idle-machine times are 2-4x shorter).
-Suffix A/B = round 1 (two per property), H = round 2 ("hard mode": written to evade a generic random harness), J/K = round 3 (hard mode with a prescribed clause of the property).
+Suffix A/B = round 1 (two per property), H = round 2 ("hard mode": written to evade a generic random harness), J/K = round 3 (hard mode with a prescribed clause of the property), L = round 4 (the same with a third clause).
 
 | id | property | change | needs, in order to manifest | suite | demo | checks (quick tier) | note |
 |---|---|---|---|---|---|---|---|
